@@ -120,6 +120,7 @@ struct Args {
     loud: usize,
     files: usize,
     max_positions: usize,
+    stay: u32, // percentage of recorded positions examined as they are (the rest one random move further on)
 }
 
 pub fn main(rest: &[String]) -> i32 {
@@ -127,7 +128,7 @@ pub fn main(rest: &[String]) -> i32 {
         eprintln!("usage: picker <positions.ndjson> <out-base> [--seed S] [--contents K] [--loud L] [--files F] [--max-positions N]");
         return 2;
     }
-    let mut a = Args { seed: 1, contents: 6, loud: 1, files: 1, max_positions: usize::MAX };
+    let mut a = Args { seed: 1, contents: 6, loud: 1, files: 1, max_positions: usize::MAX, stay: 20 };
     let mut i = 2;
     while i < rest.len() {
         let v = rest.get(i + 1).cloned().unwrap_or_default();
@@ -137,6 +138,7 @@ pub fn main(rest: &[String]) -> i32 {
             "--loud" => a.loud = v.parse().unwrap(),
             "--files" => a.files = v.parse().unwrap(),
             "--max-positions" => a.max_positions = v.parse().unwrap(),
+            "--stay" => a.stay = v.parse().unwrap(),
             x => {
                 eprintln!("unknown arg {x}");
                 return 2;
@@ -167,7 +169,7 @@ pub fn main(rest: &[String]) -> i32 {
         let pm = parent.moves();
         let mut t = parent.clone();
         let mut foreign: Vec<Move> = Vec::new();
-        if !pm.is_empty() && rng.gen_range(0..100) < 80 {
+        if !pm.is_empty() && rng.gen_range(0..100) >= a.stay {
             let m = pm[rng.gen_range(0..pm.len())];
             t.make_move(m);
             // moves of sibling positions (same ply, same side to move)
